@@ -47,7 +47,6 @@ type call struct {
 	ret bool
 }
 
-
 func runOne(c cfg, devs []vrt.Dev, labels bool) *explore.Exec {
 	l := fix.Logger()
 	h0 := c.H0
